@@ -245,8 +245,12 @@ def run(rep, tier):
     if tier != "quick":
         specs += [("reverse", "xyz"), ("mirror", "xyz"), ("chiG", "xyz"), ("chiC", "xyz"), ("chiPSU", "xyz"), ("v2", "r3"), ("v2", "r7"),
                   ("agree", "zxy")]
-    with multiprocessing.get_context("fork").Pool(min(ncpu(), len(specs))) as pool:
-        results = pool.map(job, specs, chunksize=1)
+    from vlib.par import pmap, Crashed
+    results = pmap(job, specs)
+    for k, r in enumerate(results):
+        if isinstance(r, Crashed):
+            rep.harness_error(f"job {r.item} crashed: {r.why}")
+            results[k] = {"name": str(r.item), "paths": 0, "queries": 0, "solver_s": 0.0, "verdicts": [], "unknown": 0, "wall_s": 0, "reach_listed": 1, "reach": 1, "reached": 1, "missing_classes": []}
     for r in results:
         rep.add(states=r["paths"], transitions=r["queries"], solver_s=r["solver_s"])
         rep.cov.setdefault("groups", []).append({k: r[k] for k in ("name", "paths", "queries", "unknown", "wall_s")})
